@@ -558,7 +558,8 @@ class Import(Node):
 # ------------------------------------------------------------------ random conventional units
 TYPE_POOL = ["Foo", "Bar", "UserService", "Service", "Repo", "Helper", "Order", "Item", "Client"]
 PKG_POOL = ["com.acme", "com.acme.core", "org.demo", "com.acme.util"]
-METHOD_NAMES = ["run", "save", "find", "getName", "setName", "handle", "process", "build", "load", "of"]
+METHOD_NAMES = ["run", "save", "find", "getName", "setName", "handle", "process", "build", "load", "of",
+                "get", "set", "gr\u00f6\u00dfe", "\u53d6\u5f97", "na\u00efveCalc", "access$000"]   # legal Java identifiers: multi-byte letters, '$'; bare get / set
 VAR_NAMES = ["x", "y", "svc", "repo", "item", "order", "client", "helper", "tmp", "v"]
 
 def rand_type(rng, project_types, allow_prim=True, allow_generic=True):
